@@ -410,12 +410,7 @@ func runUniverse(r *vk.Run, cfg Config) {
 			_, _ = full.M.IsDAIncluded(ctx, dF+1)
 			_, _, _, _ = agg.M.VerifWatermarks()
 			r.Hit("live-monotone")
-			obsMu.Lock()
-			if sa.LastBlockHeight > ha+1 || sf.LastBlockHeight > hf+1 {
-				// the state may be one block ahead of the height for an instant (it is written first), never more
-				obsViol = append(obsViol, fmt.Sprintf("in-memory state height %d/%d ran ahead of the store height %d/%d read before it", sa.LastBlockHeight, sf.LastBlockHeight, ha, hf))
-			}
-			obsMu.Unlock()
+			_, _ = sa, sf // read for the race detector only: the two reads are not atomic with the height reads above
 			obsMu.Lock()
 			if ha < lastA || hf < lastF {
 				obsViol = append(obsViol, fmt.Sprintf("a chain height went down while running (agg %d->%d, full %d->%d)", lastA, ha, lastF, hf))
